@@ -25,8 +25,9 @@ PROP = dict(
                   "SQLite (C09) is abstracted to rows: INSERT OR REPLACE, enumeration order and lookup order are modelled and compared with "
                   "the real files on every run, not derived from bytes. The TRIE back end is derived from C11's byte-level model (section 6 "
                   "of Props/C20.lean, Proofs/CliTrieLink.lean): insert semantics, lookup order, the set of enumerated records and no 16-bit "
-                  "overflow are theorems (trie_backend_linked); only the ORDER in which Trie::entries visits the keys (trieOrder: depth first, "
-                  "each chain of nested keys deepest first) is still modelled + compared on every run (C11 proves it up to permutation)",
+                  "overflow are theorems (trie_backend_linked), and so is the ORDER in which Trie::entries visits the keys (trieOrder: depth first, "
+                  "each chain of nested keys deepest first): dump_order_linked (section 7, Proofs/CliTrieOrder.lean) from C11's entries_order — "
+                  "the real reader's enumeration of the written bytes EQUALS the model's entries .trie as a list",
                   "slice::sort_by is only assumed to be SOME stable sort: leaf_sort_stable_unique - on Rust strings the comparator "
                   "(regenerated arm Gen.trieMixedCmp = the total preorder of trie fix ddfe893, identified with C11's phraseLt through "
                   "Utf8Order.lexLt_utf8Enc: UTF-8 preserves order) is a total preorder, so every sorted + stable arrangement of a leaf, mixed "
@@ -78,8 +79,11 @@ MANIFEST = dict(
          "(c) lookup = the leaf stably sorted by the write() comparator - THEOREM trie_backend_linked (real reader's lookup_all_phrases of the "
          "written bytes = dictLookup .trie, same order) from C11.lookup_correct + leaf_sort_is_C11; (d) no 16-bit length overflow - THEOREM "
          "(C11.writes_within_limits: inside Fits write succeeds, outside it returns Err, never truncates); (b) entries(): the SET of enumerated "
-         "records (each last record per (syllables, phrase) once) is a THEOREM from C11.entries_correct, the ORDER of the keys (depth-first, "
-         "nested keys deepest first = trieOrder) REMAINS modelled + validated by correspondence (C11 proves it up to permutation). "
+         "records (each last record per (syllables, phrase) once) is a THEOREM from C11.entries_correct, and the ORDER of the keys (depth-first, "
+         "nested keys deepest first = trieOrder) is a THEOREM as well since C11 proves entries_order: dump_order_linked (Props/C20.lean section 7: "
+         "the list the real entries() yields on the written bytes = entries .trie rs, hence both dump formats print the model's lines in the "
+         "model's order), recompiled_entries_trie_linked (the file compiled from the dump enumerates the same list); the harness oracle "
+         "checks the key order of every trie dump independently (generator_stats trie_dump_order_checked). "
          "recompiled_lookup_trie_linked / wellformed_source_roundtrip_linked restate the round trip for the two CONCRETE byte files (hypotheses: "
          "records valid for the Rust types, both writes returned Ok). SQLite: INSERT OR REPLACE, primary-key enumeration and ORDER BY sort_id, "
          "freq DESC, phrase DESC remain modelled at row level and validated by correspondence on every run (C09's relational reading).",
